@@ -6,7 +6,9 @@ if ! git diff --quiet; then echo "/repo is dirty"; exit 9; fi
 git apply "$patch" 2>/dev/null || { git checkout -q -- . ; git apply --3way "$patch" 2>/dev/null && ! grep -rq "^<<<<<<< " src; } || { git reset -q; git checkout -q -- . ; echo "patch does not apply"; exit 9; }
 git reset -q  # unstage what --3way staged
 cd /verif
+cp evidence/$pid.json /tmp/evidence-$pid.bak 2>/dev/null
 bin/check "$pid" "$tier"; rc=$?
+cp /tmp/evidence-$pid.bak evidence/$pid.json 2>/dev/null  # evidence must describe runs on the unchanged tree
 git -C /repo checkout -- . ; git -C /repo status --short | grep -v '^??' 
 echo "seedtest exit=$rc"
 exit $rc
